@@ -86,8 +86,9 @@ class LayoutShape(PipeShape):
         t = lambda x: self._term(env, x)  # noqa
         zones = {n: (t(s), t(e)) for n, (s, e) in (a.get('zones') or {}).items()}
         gz = a.get('global_zone')
+        concrete_consts = {k: v for k, v in (a.get('consts') or {}).items() if isinstance(v, int)}
         return refasm.Ref(
-            env, self.params['prog'], self.params.get('main', 'main.asm'),
+            env, self.params['prog'], self.params.get('main', 'main.asm'), predefined=concrete_consts,
             address_bits=a.get('address_bits', 16), endian=a.get('endian', 'big'),
             origin=t(a.get('origin', 0) or 0), page_size=t(a.get('page_size', 1) or 1), zones=zones,
             global_zone=None if gz is None else (t(gz[0]), t(gz[1])),
